@@ -32,7 +32,7 @@ NOTES = {  # seed -> (detected_by, note) overriding / complementing the logged r
  'C37-2': ('C37 (highlight-preserves-text)', 'missed at first: the alphabet had no TAB; caught after TAB was added to the rune alphabet of C20/C37'),
  'C38-1': ('C38 (msort-sorted-permutation)', 'missed at first: every list was smaller than the 4 KiB buffer of the str reader; caught after a 600-element and a 40x200-byte list were added'),
  'C38-2': ('C38 (left-map)', 'missed at first: no element was malformed UTF-8; caught after the element \\xffab was added to the str lists (and the model made byte-preserving)'),
- 'C31-2': ('NOT DETECTED', 'only changes which of several plans of one run are executed and reported after the first failing plan; the check registers and runs one plan per case and observes the overall verdict, which is unchanged'),
+ 'C31-2': ('C31 (verdict, multi-plan runs)', 'missed at first (one plan per case); caught after multi-plan runs were added: three functions, every pass/fail assignment and registration order, run together with `*`, each plan must be reported on its own merits'),
  'C19-2': ('NOT DETECTED', 'needs a pipe constructor that fails while returning a typed-nil (pty without /dev/ptmx, or a no_pipe_net build): no such failure can be provoked from the command alphabet'),
 }
 ROOT = '/verif'
